@@ -1674,7 +1674,7 @@ def {name} : List Item :=
   {body}
 
 theorem {name}_eq : {name} = {k['model']} := by
-  decide
+  rfl
 
 end DpapiNg.Gen
 """
@@ -1712,6 +1712,9 @@ KERNELS += [
     CK("CallL2WalkL1", ["C02"], "compute_l2_key", "kdf", "CryptoCalls.l2WalkL1", file="_gkdi.py", index=0),
     CK("CallL2Reseed", ["C02"], "compute_l2_key", "kdf", "CryptoCalls.l2Reseed", file="_gkdi.py", index=1),
     CK("CallL2WalkL2", ["C02"], "compute_l2_key", "kdf", "CryptoCalls.l2WalkL2", file="_gkdi.py", index=2),
+    # the seed envelope KeyCache builds from a loaded root key: position (31, 31), the L1 key of index 31, NO L2 key
+    CK("CallRootEnvelope", ["C10", "C02"], "KeyCache._get_key", "GroupKeyEnvelope", "CryptoCalls.rootEnvelope", file="_client.py"),
+    CK("CallRootL1", ["C10", "C02"], "KeyCache._get_key", "compute_l1_key", "CryptoCalls.rootL1", file="_client.py"),
 ]
 
 
@@ -1780,7 +1783,7 @@ def {name} : List (String × String) :=
   {body}
 
 theorem {name}_eq : {name} = {k['model']} := by
-  decide
+  rfl
 
 end DpapiNg.Gen
 """
